@@ -329,9 +329,6 @@ func dedup(s []string) []string {
 	return out
 }
 
-func (e *Engine) tryReplay(prop, name string, obls []*Obligation) map[string]interface{} {
-	return nil
-}
 
 func cmdReplay(args []string) int {
 	if len(args) < 1 {
@@ -348,8 +345,24 @@ func cmdReplay(args []string) int {
 		return 3
 	}
 	prop, _ := rep["property"].(string)
-	fmt.Printf("replaying %s: re-running the check of property %s on the current tree\n", rep["obligation"], prop)
 	e := load()
+	if r, ok := rep["replay"].(map[string]interface{}); ok {
+		// a recorded counterexample: run the recorded in-package test against the current working tree
+		src, _ := r["test_source"].(string)
+		dir, _ := r["package_dir"].(string)
+		if src != "" && dir != "" {
+			fmt.Printf("replaying %s: running the recorded input against the real code in %s\n", rep["obligation"], dir)
+			run, out, err := e.runReplayTest(dir, src)
+			if run == nil {
+				fmt.Printf("replay run failed: %v\n%s\n", err, tailStr(out, 800))
+				return 3
+			}
+			j, _ := json.Marshal(run)
+			fmt.Printf("inputs: %v\nobserved now: %s\nrecorded:     %v\n", r["inputs"], j, r["observed"])
+			fmt.Printf("(then re-running the check of property %s on the current tree)\n", prop)
+		}
+	}
+	fmt.Printf("replaying %s: re-running the check of property %s on the current tree\n", rep["obligation"], prop)
 	e.prop = prop
 	return runPropertyCheck(e, prop, "quick", 0, time.Now())
 }
